@@ -87,7 +87,7 @@ func genTlv(g *genCtx) {
 		// arbitrary octet strings (well-formed sequences with duplicates, truncations, junk)
 		np := 600
 		if g.thorough() {
-			np = 20000
+			np = 100000
 		}
 		for i := 0; i < np; i++ {
 			var b []byte
